@@ -6,11 +6,28 @@ from mirlib import callee_matches, op_place, resolve_place, path_endswith
 TOK = SYM('tokens')
 
 
+def _is_split_first(v):
+    return v[0] == 'app' and v[1].split('::')[-1].split('#')[0] == 'split_first' and v[2] == (TOK,)
+
+
+def _is_rest(v):
+    """the tail of `tokens.split_first()`: (first, rest) = payload of the Some"""
+    return v[0] == 'proj' and _is_split_first(v[1]) and tuple(v[2]) == ('as Some', '0', 1)
+
+
 def _get_term(v):
-    """v is app(cloned,(app(get,(tokens, C(k))),)) -> k"""
+    """v is app(cloned,(app(get,(tokens, C(k))),)) -> k; with `(first, rest) = tokens.split_first()`: rest.first() -> 1, rest.get(j) -> j + 1"""
     g = v[2][0] if (v[0] == 'app' and v[1].endswith('::cloned') and len(v[2]) == 1) else v
-    if g[0] == 'app' and (g[1].endswith('::get') or '::get::' in g[1]) and len(g[2]) == 2 and g[2][0] == TOK and g[2][1][0] == 'c':
-        return g[2][1][1]
+    if g[0] == 'app' and (g[1].endswith('::get') or '::get::' in g[1]) and len(g[2]) == 2 and g[2][1][0] == 'c' and isinstance(g[2][1][1], int):
+        if g[2][0] == TOK:
+            return g[2][1][1]
+        if _is_rest(g[2][0]):
+            return g[2][1][1] + 1
+    if g[0] == 'app' and g[1].split('::')[-1].split('#')[0] == 'first' and len(g[2]) == 1:
+        if g[2][0] == TOK:
+            return 0
+        if _is_rest(g[2][0]):
+            return 1
     return None
 
 
@@ -27,12 +44,12 @@ def iteration_paths(prog, fn):
     # loop head: the block calling is_empty on the `tokens` parameter
     head = None
     for b, t in fn.calls():
-        if t['callee']['name'] == 'is_empty' and not t['callee'].get('local'):
+        if t['callee']['name'] in ('is_empty', 'split_first', 'first') and not t['callee'].get('local') and head is None:
             a = resolve_place(fn, op_place(t['args'][0]))
             if a is not None and a['l'] == 1:
                 head = b
     if head is None:
-        raise ValueError('loop head (tokens.is_empty()) not found')
+        raise ValueError('loop head (tokens.is_empty() / tokens.split_first()) not found')
     pt = prog.adt('token::PartialToken')
     pnames = {v['idx']: v['name'] for v in pt['variants']}
 
@@ -60,6 +77,14 @@ def iteration_paths(prog, fn):
                     continue
                 if v[0] == 'app' and v[1] == 'discriminant':
                     inner = v[2][0]
+                    if _is_split_first(inner):
+                        if taken == C(1):
+                            info['proven_len'] = max(info['proven_len'], 1)
+                        continue
+                    if inner == ('proj', ('app', inner[1][1], (TOK,)), ('as Some', '0', 0)) if (inner[0] == 'proj' and inner[1][0] == 'app') else False:
+                        if _is_split_first(inner[1]):
+                            info['first'] = pnames.get(taken[1]) if taken[0] == 'c' else None
+                            continue
                     k = _get_term(inner)
                     if k is not None and taken == C(1):
                         info['proven_len'] = max(info['proven_len'], k + 1)
